@@ -12,15 +12,23 @@ static double D[NPTS][NPTS][NPTS];     // D[i][a][b], a < b : squared distance o
 static inline double nd_dist() { double d = nondet_double(); ASSUME(d >= 0.0 && d <= 1e30); return d; }
 static void fill_table() { for (int i = 0; i < NPTS; ++i) for (int a = 0; a < NPTS; ++a) for (int b = a + 1; b < NPTS; ++b) D[i][a][b] = nd_dist(); }
 static inline double dist(int i, int a, int b) { return a < b ? D[i][a][b] : D[i][b][a]; }
+static inline long idx_of_x(int64_t x) { for (long k = 0; k < NPTS; ++k) if (x == 10 * k) return k; return -1; }   // comparison chain, no division
 extern "C" __attribute__((noinline)) double stub_perp(const Point64& pt, const Point64& l1, const Point64& l2) {
-  long i = &pt - g_base, a = &l1 - g_base, b = &l2 - g_base;
+  // vertices are identified by value (RDP passes its path by value, so addresses differ): mk_path() puts vertex i at x = 10*i, y = i*i
+  long i = idx_of_x(pt.x), a = idx_of_x(l1.x), b = idx_of_x(l2.x);
   VA(i >= 0 && i < NPTS && a >= 0 && a < NPTS && b >= 0 && b < NPTS);
+  VA(pt.x == 10 * i && pt.y == i * i && l1.x == 10 * a && l1.y == a * a && l2.x == 10 * b && l2.y == b * b);
   ASSUME(i >= 0 && i < NPTS && a >= 0 && a < NPTS && b >= 0 && b < NPTS);
   if (a == b || i == a || i == b) return 0.0;   // what the real kernel returns for a degenerate line / a point on the line
   return dist((int)i, (int)a, (int)b);
 }
+// vector append without the reallocation path (the library reserves len elements before appending; the stub asserts capacity)
+extern "C" __attribute__((noinline)) Point64* stub_path_append_c(Path64* v, const Point64& p) {
+  VA(v->_M_impl._M_finish != v->_M_impl._M_end_of_storage); ASSUME(v->_M_impl._M_finish != v->_M_impl._M_end_of_storage);
+  Point64* f = v->_M_impl._M_finish; *f = p; v->_M_impl._M_finish = f + 1; return f;
+}
 static Path64 mk_path() { Path64 p; p.reserve(NPTS); for (int i = 0; i < NPTS; ++i) p.push_back(Point64((int64_t)(i * 10), (int64_t)(i * i))); return p; }
-static inline int index_of(const Point64& q) { return (int)(q.x / 10); }
+static inline int index_of(const Point64& q) { for (int k = 0; k < NPTS; ++k) if (q.x == 10 * k) return k; return -1; }
 
 // C20.c SimplifyPath
 extern "C" void harness_simplify() {
@@ -66,16 +74,22 @@ extern "C" void harness_rdp() {
   verif_reach();
 }
 
-// ---- concrete (non-abstracted) utilities -----------------------------------------------------------------------
 #ifndef TN
 #define TN 4
 #endif
 #ifndef TLIM
 #define TLIM 3
 #endif
-static inline __int128 cross3(const Point64& a, const Point64& b, const Point64& c) { return (__int128)(b.x - a.x) * (c.y - b.y) - (__int128)(b.y - a.y) * (c.x - b.x); }
-static inline __int128 dot3(const Point64& a, const Point64& b, const Point64& c) { return (__int128)(b.x - a.x) * (c.x - b.x) + (__int128)(b.y - a.y) * (c.y - b.y); }
-static __int128 area2(const Point64* p, int n) { __int128 s = 0; for (int i = 0; i < n; ++i) { const Point64& a = p[i]; const Point64& b = p[(i + 1) % n]; s += (__int128)a.x * b.y - (__int128)b.x * a.y; } return s; }
+// ---- concrete (non-abstracted) utilities -----------------------------------------------------------------------
+// coordinates are on a tiny grid in the TrimCollinear harness: exact 32-bit arithmetic (small multipliers for the solver)
+static inline int32_t cross3(const Point64& a, const Point64& b, const Point64& c) { return (int32_t)(b.x - a.x) * (int32_t)(c.y - b.y) - (int32_t)(b.y - a.y) * (int32_t)(c.x - b.x); }
+// IsCollinear replaced by its exact meaning (proved for all inputs in C18.b), evaluated in 32 bits on the grid
+extern "C" __attribute__((noinline)) bool stub_iscol_small(const Point64& a, const Point64& b, const Point64& c) {
+  VA(a.x >= 0 && a.x <= TLIM && a.y >= 0 && a.y <= TLIM && b.x >= 0 && b.x <= TLIM && b.y >= 0 && b.y <= TLIM && c.x >= 0 && c.x <= TLIM && c.y >= 0 && c.y <= TLIM);
+  return cross3(a, b, c) == 0;
+}
+static inline int32_t dot3(const Point64& a, const Point64& b, const Point64& c) { return (int32_t)(b.x - a.x) * (int32_t)(c.x - b.x) + (int32_t)(b.y - a.y) * (int32_t)(c.y - b.y); }
+static int32_t area2(const Point64* p, int n) { int32_t s = 0; for (int i = 0; i < n; ++i) { const Point64& a = p[i]; const Point64& b = p[(i + 1) % n]; s += (int32_t)a.x * (int32_t)b.y - (int32_t)b.x * (int32_t)a.y; } return s; }
 
 // C20.a TrimCollinear on closed paths: subsequence (cyclic order), area preserved, and for inputs without repeated points or
 // 180-degree reversals: no three consecutive collinear, idempotent
@@ -97,8 +111,11 @@ extern "C" void harness_trimcollinear_closed() {
   }
   if (clean && m) {
     for (int k = 0; k < TN; ++k) { if (k >= m) break; VA(cross3(rp[(k + m - 1) % m], rp[k], rp[(k + 1) % m]) != 0); }
-    Path64 r2 = TrimCollinear(r, false);
-    VA(r2 == r);
+    // idempotence, on a copy of concrete size (a vector of symbolic size would make the allocation symbolic)
+    if (m == 3) { Path64 q(rp, rp + 3); Path64 r2 = TrimCollinear(q, false); VA(r2.size() == 3 && r2[0] == rp[0] && r2[1] == rp[1] && r2[2] == rp[2]); }
+#if TN >= 4
+    if (m == 4) { Path64 q(rp, rp + 4); Path64 r2 = TrimCollinear(q, false); VA(r2.size() == 4 && r2[0] == rp[0] && r2[1] == rp[1] && r2[2] == rp[2] && r2[3] == rp[3]); }
+#endif
   }
   verif_reach();
 }
